@@ -875,10 +875,21 @@ class Machine:
             i = st.draw(0, len(pts) - 1, "which")
             j = int(np.searchsorted(x, pts[i]))
             nb = x[j + 1] if j + 1 < n else x[j - 1]
-            pts[i] = float((x[j] + nb) / 2)
+            how = st.draw(0, 3, "how-far")
+            if how == 0:
+                pts[i] = float((x[j] + nb) / 2)                       # mid-way between two samples
+            else:
+                ulps = (1, 4, 64)[how - 1] * (1 if st.coin(1, 2, "above") else -1)
+                v = float(x[j])
+                for _ in range(abs(ulps)):                             # a few ulp away from a sample: still not a sample
+                    v = float(np.nextafter(v, np.inf if ulps > 0 else -np.inf))
+                pts[i] = v
+            if pts[i] in set(float(v) for v in x):
+                pts[i] = float((x[j] + nb) / 2)
             pts = sorted(pts)
             d["call"] = lambda wv: wv.integral_match(fixed_points_in_x=pts)
-            d["text"] = f"integral_match(fixed_points_in_x with {pts[i] if i < len(pts) else ''} not a sample)"
+            bogus = [p_ for p_ in pts if p_ not in set(float(v) for v in x)]
+            d["text"] = f"integral_match(fixed_points_in_x with {bogus[0]!r} which is not a sample of x)"
         elif c == "match-fixed-points-too-many":
             if st.coin(1, 2, "indices"):
                 idx = list(range(n)) + [n - 1] * st.draw(1, 3)
@@ -1031,18 +1042,66 @@ def _run_c08_sequence(M, seq):
         M.tail_r4()
 
 
+REPLAYABLE = ("shift_x", "shift_y", "scale_x", "scale_y", "normalize_x", "append_one_sample", "repeat",
+              "recreate_from_average", "integral_match", "smooth", "trend", "noise")
+
+
+def replayable(M, op, a):
+    """Can (op, a) from before restore_original be issued again on the current state?"""
+    x, y = M.cur()
+    if op not in REPLAYABLE:
+        return False
+    if op == "integral_match":
+        return M.match_ready() and "fixed_points_in_x" not in a and "fixed_points_indices_in_x" not in a
+    if op == "recreate_from_average":
+        return len(x) >= 2 and (len(x) - 1) * a["n"] + 1 <= MAX_LEN
+    if op == "repeat":
+        return len(x) * a["n"] <= MAX_LEN
+    if op == "smooth":
+        return len(x) >= 5
+    if op == "noise":
+        return not isinstance(a.get("snr"), list) or len(a["snr"]) == len(x)
+    return True
+
+
 def _run_c09(M, params):
     st = M.st
+    done = []            # operations applied so far (for replay after restore_original)
+    queue = []
     for _ in range(st.draw(0, 10, "length")):
-        k = st.weighted((6, 7, 2, 2, 1), "kind")     # domain, reshaping, restore, observer, caller edit
-        if k == 0:
-            M.apply(*M.gen_domain())
-        elif k == 1:
-            g = M.gen_reshape()
-            if g is None:
-                M.apply(*M.gen_domain())
-            else:
+        if queue:
+            op, a = queue.pop(0)
+            if replayable(M, op, a):
+                M.apply(op, dict(a))
+                M.count("replayed-after-restore")
+                continue
+        k = st.weighted((6, 7, 2, 2, 1, 3), "kind")  # domain, reshaping, restore, observer, caller edit, pipeline
+        n_before = len(M.kinds)
+        if k == 5:
+            # the documented pipeline as one move: recreate_from_average + integral_match
+            g = M.gen_recreate()
+            if g is not None:
                 M.apply(*g)
+                done.append(g)
+                if M.match_ready():
+                    m = ("integral_match", {"target": st.pick(("trapezoid", "rectangle"), "target"),
+                                            "reference": st.pick(("rectangle", "trapezoid"), "reference")})
+                    M.apply(*m)
+                    done.append(m)
+            continue
+        if k == 2:
+            # users restore and then redo (part of) what they did before - the documentation's own examples do
+            if done and st.coin(1, 2, "redo-after-restore"):
+                start = st.draw(0, len(done) - 1, "redo-from")
+                queue = [(op, a) for op, a in done[start:]]
+        if k == 0:
+            g = M.gen_domain()
+            done.append(g)
+            M.apply(*g)
+        elif k == 1:
+            g = M.gen_reshape() or M.gen_domain()
+            done.append(g)
+            M.apply(*g)
         elif k == 2:
             M.apply("restore_original", {})
             ox, oy = M.wv.get_original()
